@@ -125,3 +125,88 @@ func walkSpoil(v reflect.Value, dyn bool, count *int, target int, cross bool) re
 	}
 	return v
 }
+
+// Blank returns a deep copy of the native value x in which exactly one location that can express absence (number k
+// modulo the number of such locations, in a deterministic order) is made absent: a pointer becomes nil, a map entry
+// is removed, an interface field or element becomes nil. Everything else stays as it is. The second result is the
+// number of locations (0: x is returned as is).
+func Blank(x any, k int) (any, int) {
+	if x == nil || k < 0 {
+		return x, 0
+	}
+	holder := reflect.New(reflect.TypeOf(x)).Elem()
+	holder.Set(reflect.ValueOf(DeepCopy(x)))
+	n := 0
+	walkBlank(holder, &n, -1)
+	if n == 0 {
+		return x, 0
+	}
+	c := 0
+	walkBlank(holder, &c, k%n)
+	return holder.Interface(), n
+}
+
+// walkBlank visits the locations below the settable value v; it reports whether the target was hit below (or at) v.
+func walkBlank(v reflect.Value, count *int, target int) bool {
+	hit := func() bool {
+		*count++
+		return *count-1 == target
+	}
+	switch v.Kind() {
+	case reflect.Pointer:
+		if v.IsNil() || v.Type() == regexpPtr {
+			return false
+		}
+		if hit() {
+			v.Set(reflect.Zero(v.Type()))
+			return true
+		}
+		return walkBlank(v.Elem(), count, target)
+	case reflect.Interface:
+		if v.IsNil() {
+			return false
+		}
+		if hit() {
+			v.Set(reflect.Zero(v.Type()))
+			return true
+		}
+		tmp := reflect.New(v.Elem().Type()).Elem()
+		tmp.Set(v.Elem())
+		if walkBlank(tmp, count, target) {
+			v.Set(tmp)
+			return true
+		}
+		return false
+	case reflect.Struct:
+		for i := 0; i < v.NumField(); i++ {
+			if !v.Field(i).CanSet() {
+				continue
+			}
+			if walkBlank(v.Field(i), count, target) {
+				return true
+			}
+		}
+	case reflect.Slice, reflect.Array:
+		for i := 0; i < v.Len(); i++ {
+			if walkBlank(v.Index(i), count, target) {
+				return true
+			}
+		}
+	case reflect.Map:
+		keys := v.MapKeys()
+		sort.Slice(keys, func(i, j int) bool { return fmt.Sprintf("%#v", keys[i].Interface()) < fmt.Sprintf("%#v", keys[j].Interface()) })
+		for _, key := range keys {
+			if hit() {
+				v.SetMapIndex(key, reflect.Value{})
+				return true
+			}
+			tmp := reflect.New(v.Type().Elem()).Elem()
+			tmp.Set(v.MapIndex(key))
+			if walkBlank(tmp, count, target) {
+				v.SetMapIndex(key, tmp)
+				return true
+			}
+		}
+	}
+	return false
+}
